@@ -7,4 +7,4 @@ RULE = ("for every TL1-origin item with TL2 and variant: valid TL1 bytes b1 (wri
 
 
 def run(ctx):
-    codec.simple_check(ctx, "c04", RULE, [("types", "types", 120), ("values", "values", 4000), ("conversions", "conversions_ok", 4000)], 60, 400)
+    codec.simple_check(ctx, "c04", RULE, [("types", "types", 120), ("values", "values", 4000), ("conversions", "conversions_ok", 4000)], 60, 400, random_quick=3, random_thorough=30)
